@@ -64,7 +64,10 @@ def spread_rows(rows, keep):
 @st.composite
 def data_rows(draw, k, p, kind):
     if kind == 'smallpos':
-        el = st.integers(0, 4).map(float)
+        # small counts, or (a third of the stacks) counts up to 240 whose squares no longer fit
+        # a narrow integer type
+        top = draw(st.sampled_from([4, 4, 240]))
+        el = st.integers(0, top).map(float)
     elif kind == 'float':
         el = gen.any_float(0.0, 100.0)
     else:
@@ -168,6 +171,12 @@ def base_labels(case):
 
 
 def make_rdms(a, groups):
+    a = np.array(a, dtype=float)
+    if a.size and not np.isnan(a).any() and np.all(a == np.round(a)) and a.min() >= 0 \
+            and a.max() <= 255 and int(a.sum()) % 2 == 0:
+        # integral data RDMs (counts, Hamming distances) stored in a narrow integer type:
+        # the ceilings are those of the numbers held, whatever the storage type
+        a = a.astype(np.uint8 if int(a.sum()) % 4 == 0 else np.int16)
     return RDMs(a.copy(), rdm_descriptors={'grp': list(groups)})
 
 
